@@ -202,15 +202,20 @@ class Parser:
             self._add_instruction(OpCode.COLOR)
             return True
 
+        # A command inside an operand's begin...end block has an op-code of
+        # its own; this command's must survive it.
+        op_code = self._op_code
         if not self._operand():
             return False
-        self._add_instruction(self._op_code)
+        self._op_code = op_code
+        self._add_instruction(op_code)
 
         while self._current_token.is_a(TokenTypes.AND):
             self.next_token()
             if not self._operand():
                 return False
-            self._add_instruction(self._op_code)
+            self._op_code = op_code
+            self._add_instruction(op_code)
         return True
 
     def _operand(self) -> bool:
